@@ -419,17 +419,17 @@ Example C02_match_quotes_stale_twin_limit :
 Proof. exact match_quotes_stale_witness. Qed.
 
 (* ====================== phase 4: the Markdown glue ======================
-   Model: Model/C02Markdown.v — Markdown::parse (as it is after a37d1cc and 8b26ba4) over an ABSTRACT pulldown-cmark
-   event stream (an event = the arm of `match event` it falls into, its payload's char count, its source BYTE range),
-   with the real inner parser (plain_parse), the byte/char bookkeeping of Model/Mask.v, the covered_until guard, the
-   final pop and the two wikilink passes.
-   md_contract ilt src evs (decidable, md_contractb: a shadow run of cursor / covered_until / tag stack that needs no
-   lexing; monitored on every generated document).  ORDER and DISJOINTNESS of the events are no longer assumed: the
-   guard of 8b26ba4 enforces them (the old clause K2 is gone).  Asked only of the events the guard does not skip:
-     K1 every range starts on a char boundary; a Text range is start <= end on char boundaries;
-     K3 the range of an event that pushes a covering token ends on a char boundary at or after the cursor, and the
-        source between the cursor and that end holds the characters the token claims (1 for breaks, the payload for
-        Code / Math / Html, the clamped length for Text); an Html payload is not empty.
+   Model: Model/C02Markdown.v — Markdown::parse (as it is after a37d1cc, 8b26ba4 and b736ef8) over an ABSTRACT
+   pulldown-cmark event stream (an event = the arm of `match event` it falls into, its payload's char count, its source
+   BYTE range), with the real inner parser (plain_parse), the byte/char bookkeeping of Model/Mask.v, the covered_until /
+   behind_cursor guard, the final pop and the two wikilink passes.
+   md_contract src evs (decidable: md_contractb = forallb ev_ok; monitored on every generated document) is a property of
+   each event ON ITS OWN — nothing is assumed about the order of the events or their position relative to each other
+   (the guard enforces what the proof needs):
+     K1 the range starts on a char boundary; the range of a token-bearing event (SoftBreak, HardBreak, Code / Math, Html,
+        Text) is start <= end on char boundaries;
+     K3 the payload fits its own range: >= 1 character for the breaks, >= the payload for Code / Math / Html; an Html
+        payload is not empty.
    valid_char = Rust's `char` invariant (a scalar value), a fact about the input type. *)
 
 (* under the contract Markdown::parse never panics; the loop's tokens `raw` and the final tokens `ts` (a sub-sequence:
@@ -437,14 +437,14 @@ Proof. exact match_quotes_stale_witness. Qed.
    token invariant of the property — start <= end, covering tokens in bounds, ordered and disjoint, zero-width tokens
    only Newline / ParagraphBreak — and EVERY token, the zero-width ones too, ends inside the text *)
 Theorem C02_markdown_glue : forall u ilt src evs,
-  Forall valid_char src -> md_contract ilt src evs ->
+  Forall valid_char src -> md_contract src evs ->
   exists raw ts,
     markdown_raw u ilt src evs = Ok raw /\ markdown_parse u ilt src evs = Ok ts /\ Sub ts raw /\
     TokInv (length src) raw /\ TokInv (length src) ts /\
     Forall (fun t => tend t <= length src) ts.
 Proof. exact markdown_glue. Qed.
 Check C02_markdown_glue : forall u ilt src evs,
-  Forall valid_char src -> md_contract ilt src evs ->
+  Forall valid_char src -> md_contract src evs ->
   exists raw ts,
     markdown_raw u ilt src evs = Ok raw /\ markdown_parse u ilt src evs = Ok ts /\ Sub ts raw /\
     TokInv (length src) raw /\ TokInv (length src) ts /\
@@ -461,23 +461,23 @@ Print Assumptions C02_remove_indices_sub.
 (* FC02b, repaired by 8b26ba4 — `[[a|]] b`: pulldown-cmark 0.13 still reports the text after the link twice, but the
    stream now MEETS the contract, the guard skips the repeat, and the tokens tile 4..8 *)
 Theorem C02_markdown_repeated_text_skipped :
-  md_contract false md_dup_src md_dup_evs /\
+  md_contract md_dup_src md_dup_evs /\
   markdown_parse ascii_uni false md_dup_src md_dup_evs = Ok md_dup_out /\
   Tiling 4 8 md_dup_out.
 Proof. exact markdown_repeated_text_skipped. Qed.
 Check C02_markdown_repeated_text_skipped :
-  md_contract false md_dup_src md_dup_evs /\
+  md_contract md_dup_src md_dup_evs /\
   markdown_parse ascii_uni false md_dup_src md_dup_evs = Ok md_dup_out /\
   Tiling 4 8 md_dup_out.
 Print Assumptions C02_markdown_repeated_text_skipped.
 
 (* FC02a, repaired by a37d1cc — `$$$$`: the contract holds, no token *)
 Theorem C02_markdown_empty_math_no_token :
-  md_contract false md_math_src md_math_evs /\
+  md_contract md_math_src md_math_evs /\
   markdown_parse ascii_uni false md_math_src md_math_evs = Ok [].
 Proof. exact markdown_empty_math_no_token. Qed.
 Check C02_markdown_empty_math_no_token :
-  md_contract false md_math_src md_math_evs /\
+  md_contract md_math_src md_math_evs /\
   markdown_parse ascii_uni false md_math_src md_math_evs = Ok [].
 Print Assumptions C02_markdown_empty_math_no_token.
 
@@ -491,22 +491,28 @@ Example C02_markdown_old_refuted :
    ~ ZeroWidthOnlyBreaks [mktok (mkspan 0 0) KUnlintable]).
 Proof. exact markdown_old_witnesses. Qed.
 
-(* FC02c (open, the residue of FC02b) — `x ![[a|]] Old _a_ b`: the repeat happens inside an image, whose texts push
-   no token, so the guard does not fire; the repeated Text ` Old ` (range 9..14, behind the cursor 17) is placed at the
-   cursor and `&source[17..22]` of a 19-character source panics.  Clause K3 fails on the stream *)
-Theorem C02_markdown_backward_event_refuted :
-  md_contractb false (encode md_back_src) 0 0 None [] md_back_evs = false /\
-  markdown_parse ascii_uni false md_back_src md_back_evs = Panic PIndex.
-Proof. exact markdown_backward_event_witness. Qed.
-Check C02_markdown_backward_event_refuted :
-  md_contractb false (encode md_back_src) 0 0 None [] md_back_evs = false /\
-  markdown_parse ascii_uni false md_back_src md_back_evs = Panic PIndex.
-Print Assumptions C02_markdown_backward_event_refuted.
+(* FC02c, repaired by b736ef8 (the residue of FC02b) — `x ![[a|]] Old _a_ b`: the repeat happens inside an image whose
+   texts push no token; the repeated Text ` Old ` lies behind the cursor and is skipped; the stream meets the contract,
+   the tokens are a gapped tiling of the 19 characters *)
+Theorem C02_markdown_backward_event_skipped :
+  md_contract md_back_src md_back_evs /\
+  markdown_parse ascii_uni false md_back_src md_back_evs = Ok md_back_out /\
+  Gapped 0 19 md_back_out.
+Proof. exact markdown_backward_event_skipped. Qed.
+Check C02_markdown_backward_event_skipped :
+  md_contract md_back_src md_back_evs /\
+  markdown_parse ascii_uni false md_back_src md_back_evs = Ok md_back_out /\
+  Gapped 0 19 md_back_out.
+Print Assumptions C02_markdown_backward_event_skipped.
+(* HISTORY (labelled): the loop of 8b26ba4, without the behind_cursor test, panics on that stream (`&source[17..22]`) *)
+Example C02_markdown_8b26ba4_refuted :
+  mk_loop_8b26ba4 ascii_uni false md_back_src (encode md_back_src) md_back_evs 0 0 0 None [] = Panic PIndex.
+Proof. exact markdown_8b26ba4_witness. Qed.
 
 (* non-vacuity: "ü [[a|b]] `c`\n" with the event stream pulldown-cmark really delivers meets the contract; a
    multi-byte character, a wikilink whose hidden target and brackets are removed, inline code, a kept trailing break *)
 Example C02_markdown_glue_nonvacuous :
-  Forall valid_char md_ex_src /\ md_contract false md_ex_src md_ex_evs /\
+  Forall valid_char md_ex_src /\ md_contract md_ex_src md_ex_evs /\
   markdown_parse uni_u_umlaut false md_ex_src md_ex_evs
   = Ok [mktok (mkspan 0 1) KWord; mktok (mkspan 1 2) (KSpace 1); mktok (mkspan 6 7) KWord;
         mktok (mkspan 9 10) (KSpace 1); mktok (mkspan 10 11) KUnlintable; mktok (mkspan 10 10) KParagraphBreak].
